@@ -19,7 +19,7 @@ class Hit:
 
 class EngineSpec:
     """How a property uses one correspondence engine."""
-    def __init__(self, name, gen, monitor=None, tags=None, corpus=None, quick_n=200, thorough_n=5000, timeout=900, canon=None, mask=None):
+    def __init__(self, name, gen, monitor=None, tags=None, corpus=None, quick_n=200, thorough_n=5000, timeout=900, canon=None, mask=None, hyp_alarm=None):
         self.name = name
         self.gen = gen              # gen(rng, n, tier) -> [History]
         self.monitor = monitor      # monitor(hist, obs) -> [Hit]
@@ -30,6 +30,8 @@ class EngineSpec:
         self.timeout = timeout
         self.canon = canon          # canon(lines) -> lines: engine-specific canonicalisation of implementation output
         self.mask = mask            # mask(impl_lines, model_lines) -> (impl, model): blank what the model declares outside its domain
+        self.hyp_alarm = hyp_alarm or {}   # model annotation token -> (fingerprint, text): the model itself says that the hypothesis of a
+                                           # property theorem fails in the state it is in (and the state is a violation by itself)
 
 
 class PropSpec:
@@ -158,6 +160,7 @@ def run_property(spec, tier, seed, extract=None):
             evaluations += 1
             # model-only annotations (` ##m key=value ...` at the end of a model line): whether the hypotheses of a theorem
             # hold of the state the model is in.  They are counted into the evidence and removed before the comparison.
+            hyp_hits = []
             if mo is not None:
                 for j, line in enumerate(mo):
                     if line and " ##m " in line:
@@ -165,6 +168,9 @@ def run_property(spec, tier, seed, extract=None):
                         mo[j] = base
                         for tok in ann.split():
                             tag_hist["model:" + tok] = tag_hist.get("model:" + tok, 0) + 1
+                            if tok in es.hyp_alarm and j < len(io) and not (io[j] or "").startswith(("PANIC", "DIED")):
+                                fp, text = es.hyp_alarm[tok]
+                                hyp_hits.append((fp, f"{text} (op {j}: {h.ops[j] if j < len(h.ops) else '?'})"))
             for o in h.ops:
                 k = o.split(" ")[0]
                 op_hist[k] = op_hist.get(k, 0) + 1
@@ -192,6 +198,15 @@ def run_property(spec, tier, seed, extract=None):
                 d = diff_sides(es, io, mo, h.ops)
                 if d is not None:
                     disagreements.append((es, h, d, io, mo))
+                else:
+                    # model and code agree on this history, and the model says the state violates the property
+                    for fp, text in hyp_hits[:1]:
+                        hit = Hit(fp, text)
+                        hit.hist, hit.engine, hit.obs = h, es.name, io
+                        if hit.fp in known_fps:
+                            known_seen.add(hit.fp)
+                        else:
+                            hits.append(hit)
 
     # shrink + record disagreements ------------------------------------------------------
     seen_dis = set()
